@@ -540,3 +540,68 @@ func VerifC08_V1KeyPairFault() {
 	verif.Assert(paired, "public-key-has-its-private-key"+scen)
 	verif.Assert(ks2.GenerateDataEncryptionKeys(id) == nil, "follow-up-rotation-accepted"+scen)
 }
+
+// VerifC06_V1ListingSeveralKeys: with two clients that both have rotation history, the index the listing shows for a
+// rotated key of either client is the index that destroys exactly that key (and nothing of the other client).
+func VerifC06_V1ListingSeveralKeys() {
+	fsys := vfs.New()
+	fsys.MkdirAll("/keys", 0700)
+	ks := verifStore(fsys, keystore.WithoutCache)
+	ids := [][]byte{[]byte("alice"), []byte("bobby")}
+	gen := map[string][][]byte{}
+	for i := 0; i < 3; i++ {
+		for _, id := range ids {
+			verif.Assert(ks.GenerateClientIDSymmetricKey(id) == nil, "generate")
+			k, err := ks.GetClientIDSymmetricKey(id)
+			if err != nil {
+				verif.Assert(false, "current-readable")
+				return
+			}
+			for _, o := range gen["alice"] {
+				verif.Assume(!verif.Eq(o, k))
+			}
+			for _, o := range gen["bobby"] {
+				verif.Assume(!verif.Eq(o, k))
+			}
+			gen[string(id)] = append(gen[string(id)], verifDup(k))
+		}
+	}
+	listing, err := ks.ListRotatedKeys()
+	verif.Assert(err == nil, "listing")
+	if err != nil {
+		return
+	}
+	who := ids[verif.Choose("client", 0, 1)]
+	var indexes []int
+	for _, d := range listing {
+		if d.ClientID == string(who) && d.Purpose == keystore.PurposeStorageClientSymmetricKey {
+			indexes = append(indexes, d.Index)
+		}
+	}
+	verif.Assert(len(indexes) == 2, "two-rotated-keys-listed-per-client")
+	if len(indexes) != 2 {
+		return
+	}
+	verif.Assert(indexes[0] == 2 && indexes[1] == 3, "listed-indexes-start-at-2-for-every-key")
+	which := verif.Choose("which", 0, 1)
+	err = ks.DestroyRotatedClientIDSymmetricKey(who, indexes[which])
+	verif.Reach("destroy-returned")
+	verif.Assert(err == nil, "listed-index-accepted")
+	ks2 := verifStore(fsys, keystore.WithoutCache)
+	for _, id := range ids {
+		after, err := ks2.GetClientIDSymmetricKeys(id)
+		verif.Assert(err == nil, "all-readable-after-destroy")
+		if err != nil {
+			return
+		}
+		g := gen[string(id)]
+		for i := 0; i < 3; i++ {
+			removed := string(id) == string(who) && i == which
+			if removed {
+				verif.Assert(!verifContains(after, g[i]), "chosen-key-removed")
+			} else {
+				verif.Assert(verifContains(after, g[i]), "other-keys-kept")
+			}
+		}
+	}
+}
